@@ -75,7 +75,12 @@ type FieldSpec struct {
 	Tags     map[string]string `json:"tags"`  // source -> key ("" map = untagged)
 	Required string            `json:"required,omitempty"`
 	Default  string            `json:"default,omitempty"`
-	kind     reflect.Kind
+	// Embedded: the field lives in an embedded struct without a tag of its own (a shared "paging" or "auth" struct);
+	// the body decoder flattens such a struct, every source knows the field by the same key as before
+	Embedded bool `json:"embedded,omitempty"`
+	// UnexportedTwin: the struct also has an unexported int field whose name equals this field's json name ignoring case
+	UnexportedTwin bool `json:"unexported_twin,omitempty"`
+	kind           reflect.Kind
 }
 
 // ReqSpec says which sources carry a value for which field.
@@ -257,6 +262,9 @@ func genFields(t *rapid.T) []FieldSpec {
 					f.Tags["json"] = strings.ToUpper(pk)
 				}
 			}
+			if strings.HasPrefix(f.Tags["json"], "j_f") && rapid.IntRange(0, 5).Draw(t, "unexportedTwin") == 0 {
+				f.UnexportedTwin = true
+			}
 			if _, has := f.Tags["json"]; !has && rapid.IntRange(0, 4).Draw(t, "jsonSkipped") == 0 {
 				// the field is kept out of the body; a body key with the field's Go name is a decoy. (As the only tag
 				// it leaves the field without any source: it keeps its zero or default value.)
@@ -285,11 +293,25 @@ func genFields(t *rapid.T) []FieldSpec {
 		}
 		fs = append(fs, f)
 	}
+	twins := false
+	for i := range fs {
+		if strings.HasPrefix(fs[i].Tags["json"], "J_F") {
+			twins = true
+		}
+	}
+	// (json names that differ only in case are kept on one level: across an embedding the shallower field wins in
+	// the body decoder, a rule of encoding/json the reference does not model)
+	if !twins && rapid.IntRange(0, 3).Draw(t, "embedTrailingFields") == 0 {
+		k := rapid.IntRange(1, len(fs)).Draw(t, "nEmbedded")
+		for i := len(fs) - k; i < len(fs); i++ {
+			fs[i].Embedded = true
+		}
+	}
 	return fs
 }
 
 func buildType(fs []FieldSpec) reflect.Type {
-	var sf []reflect.StructField
+	var sf, emb []reflect.StructField
 	for _, f := range fs {
 		ty := kindType(f.kind)
 		switch f.Shape {
@@ -317,7 +339,20 @@ func buildType(fs []FieldSpec) reflect.Type {
 		if typeCounter%2 == 0 {
 			tag = append(tag, fmt.Sprintf("vmark:\"%d-%s\"", typeCounter, f.Name))
 		}
+		if f.Embedded {
+			emb = append(emb, reflect.StructField{Name: f.Name, Type: ty, Tag: reflect.StructTag(strings.Join(tag, " "))})
+			continue
+		}
 		sf = append(sf, reflect.StructField{Name: f.Name, Type: ty, Tag: reflect.StructTag(strings.Join(tag, " "))})
+	}
+	if len(emb) > 0 {
+		sf = append(sf, reflect.StructField{Name: "Emb", Type: reflect.StructOf(emb), Anonymous: true})
+	}
+	for _, f := range fs {
+		// an unexported sibling whose name equals a json name ignoring case: the body decoder cannot fill it, it claims no key
+		if f.UnexportedTwin && strings.HasPrefix(f.Tags["json"], "j_f") && !f.Embedded {
+			sf = append(sf, reflect.StructField{Name: "j_F" + f.Tags["json"][3:], PkgPath: "verifharness/props/c15", Type: reflect.TypeOf(0)})
+		}
 	}
 	if typeCounter%2 == 1 {
 		sf = append(sf, reflect.StructField{Name: fmt.Sprintf("Zmark%d", typeCounter), Type: reflect.TypeOf(false), Tag: `json:"-"`})
@@ -590,7 +625,7 @@ func reference(c *genCase) (reflect.Value, bool) {
 				break
 			}
 		}
-		fv := out.Field(i)
+		fv := out.FieldByName(f.Name)
 		if found == "" {
 			if f.Required != "" {
 				return out, true
@@ -678,6 +713,13 @@ func render(v reflect.Value) string {
 	var sb strings.Builder
 	for i := 0; i < v.NumField(); i++ {
 		f := v.Field(i)
+		if v.Type().Field(i).Anonymous && f.Kind() == reflect.Struct {
+			sb.WriteString(render(f))
+			continue
+		}
+		if v.Type().Field(i).PkgPath != "" {
+			continue // the unexported decoy
+		}
 		if f.Kind() == reflect.Ptr {
 			if f.IsNil() {
 				fmt.Fprintf(&sb, "%s=<nil> ", v.Type().Field(i).Name)
@@ -751,6 +793,12 @@ func classify(c *genCase) (bool, []string) {
 	}
 	if c.Req.NestedDecoy != 0 {
 		cls = append(cls, "nested-decoy-beside-dotted-json-name")
+	}
+	for i := range c.Fields {
+		if c.Fields[i].Embedded {
+			cls = append(cls, "fields-in-an-embedded-struct")
+			break
+		}
 	}
 	for i := range c.Fields {
 		if strings.HasPrefix(c.Fields[i].Tags["json"], "J_F") {
